@@ -236,6 +236,12 @@ def footprint(before, after, kind, pi):
     index than ``pi`` (or a pending queue that lost the wrong player)."""
     for name in _FOOTPRINT.get(kind, ()):
         a, b = getattr(before, name), getattr(after, name)
+        if name.endswith('_statuses') and name != 'hole_card_statuses' \
+                and not any(a[j] for j in range(before.player_count)
+                            if j != pi):
+            # nobody else was pending: the phase may have ended with this
+            # operation and the next one re-initialised the flags
+            continue
         for i in range(before.player_count):
             if i != pi and _freeze(a[i]) != _freeze(b[i]):
                 return (f'{name}[{i}] changed from {a[i]!r} to {b[i]!r}'
